@@ -14,6 +14,11 @@ Theorem C01_shift_amounts n : 0 <= n -> fftshift_amount n = n / 2 /\ ifftshift_a
 Proof. exact (shift_amounts n). Qed.
 Print Assumptions C01_shift_amounts.
 
+(* dim=None shifts every axis *)
+Theorem C01_default_axes i : 0 <= i -> fftshift_default_axis i = i /\ ifftshift_default_axis i = i.
+Proof. exact (default_axes i). Qed.
+Print Assumptions C01_default_axes.
+
 (* the spectrum-shift helpers are mutual inverses for every length (1, odd, even) *)
 Theorem C01_shifts_inverse_1d (A : Type) (l : list A) :
   roll1_gen (ifftshift_amount (Z.of_nat (length l))) (roll1_gen (fftshift_amount (Z.of_nat (length l))) l) = l /\
@@ -48,8 +53,8 @@ Theorem C01_fft2_ifft2_inverse (T : Type) (vc vr ishift fshift : T -> T) (F Finv
   (forall t, ishift (fshift t) = t) -> (forall t, fshift (ishift t) = t) ->
   (forall b t, Finv b (F b t) = t) -> (forall b t, F b (Finv b t) = t) ->
   forall c n ci t,
-    run T vc vr ishift fshift F Finv c n ci ifft2_ops (run T vc vr ishift fshift F Finv c n ci fft2_ops t) = t /\
-    run T vc vr ishift fshift F Finv c n ci fft2_ops (run T vc vr ishift fshift F Finv c n ci ifft2_ops t) = t.
+    run T vc vr ishift fshift F Finv c n ci (ifft2_tab c ci) (run T vc vr ishift fshift F Finv c n ci (fft2_tab c ci) t) = t /\
+    run T vc vr ishift fshift F Finv c n ci (fft2_tab c ci) (run T vc vr ishift fshift F Finv c n ci (ifft2_tab c ci) t) = t.
 Proof.
   intros H1 H2 H3 H4 H5 H6 c n ci t.
   exact (conj (ifft2_fft2_id T vc vr ishift fshift F Finv H1 H2 H3 H4 H5 c n ci t)
@@ -58,7 +63,7 @@ Qed.
 Print Assumptions C01_fft2_ifft2_inverse.
 
 Theorem C01_fft2_is_shifted_transform (T : Type) (vc vr ishift fshift : T -> T) (F Finv : bool -> T -> T) c n ci t :
-  run T vc vr ishift fshift F Finv c n ci fft2_ops t =
+  run T vc vr ishift fshift F Finv c n ci (fft2_tab c ci) t =
   (if ci then vr else fun x => x) ((if c then fshift else fun x => x) (F n ((if c then ishift else fun x => x) ((if ci then vc else fun x => x) t)))).
 Proof. exact (fft2_shape T vc vr ishift fshift F Finv c n ci t). Qed.
 Print Assumptions C01_fft2_is_shifted_transform.
